@@ -437,7 +437,8 @@ def run(tier, seed):
     rep.add("closed constant identities", closed)
     rep.bounds = {"inputs": "all limb values with x,y < r (reduce: x < 2r); full 4x64-bit width, no size reduction",
                   "aliasing": "receiver/operand patterns 0..4 enumerated (distinct, z=x, z=y, x=y, all equal)",
-                  "outside": "Inverse, Sqrt, Exp, Legendre, BatchInvert and the assembly are separate groups (see evidence groups); schoolbook lemma sum P(x_i,y_j)W^(i+j)=x*y taken on paper"}
+                  "assembly": "every TEXT symbol of the three .s files (ADX path symbolically, fallback = call of the portable function with unchanged arguments), aliasing patterns of the pointer arguments enumerated",
+                  "outside": "Inverse, Sqrt, Exp, Legendre, BatchInvert (algebra level, not built); schoolbook lemma sum P(x_i,y_j)W^(i+j)=x*y taken on paper; violations found in the assembly groups are reported without native replay (the replay would need the mutated assembly to be the one linked, which it is: see DESIGN 0.2)"}
     rep.assumptions = ["abstract 64x64 product P(a,b) constrained only by 0<=P<=(2^64-1)a,(2^64-1)b (true of real multiplication)",
                        "dropped-result lemmas are proved before use, never assumed", "operands are reduced (documented Element invariant)"]
     lin_names = ("VerifC15Add", "VerifC15Sub", "VerifC15Double", "VerifC15Neg", "VerifC15Reduce", "VerifC15API", "VerifC15Butterfly")
@@ -452,7 +453,35 @@ def run(tier, seed):
     def on_result(a, item):
         rep.add(item["group"], item["recs"], _Info(item["info"]), key_prefix=item["harness"], replay=make_replay(item["harness"], item["params"], item["mode"]))
     run_jobs(rep, job, jobs, name=lambda a: "%s %s" % (a[0], a[1]), on_result=on_result)
-    return rep.finish(explanation="Portable limb arithmetic of bandersnatch/fr executed from SSA: add/sub/neg/double/reduce/butterfly/mulByConstant/Bit/BitLen bit-precisely (BV), "
+    # O2: the assembly routines, interpreted from the text of the .s files
+    from checks import c15asm
+
+    def asm_replay(rec):
+        # replay on the real build: Element.Mul / FromMont dispatch to the assembly natively
+        vals = rec.get("model") or {}
+        if not all(("x%d" % i) in vals for i in range(4)):
+            return None, None
+        vals = {k: int(v) for k, v in vals.items()}
+        res = native_replay(BUILD, FR, FR + ".VerifC15MulAsm", {}, vals, tag="asm")
+        if not res["built"]:
+            return None, res["path"]
+        Rinv = pow(1 << 256, -1, Q)
+        x = model_elem(vals, "x")
+        y = model_elem(vals, "y")
+        try:
+            bad = pyval(res["notes"]["z"][0]) != x * y * Rinv % Q or pyval(res["notes"]["fm"][0]) != x * Rinv % Q
+        except Exception:
+            bad = bool(res["panics"])
+        return bad, res["path"]
+
+    def on_asm(a, item):
+        rep.add(item["group"], item["recs"], _Info(item["info"]), key_prefix="asm", replay=asm_replay)
+    try:
+        run_jobs(rep, c15asm.job, c15asm.all_jobs(tier), name=lambda a: "asm %s" % (a[1:],), on_result=on_asm)
+        rep.trusted.append("Plan 9 assembler encoding of the mnemonics and the CPU (assembly is interpreted from source text)")
+    except Exception as e:  # noqa
+        rep.inconclusive_group("assembly", str(e)[:300])
+    return rep.finish(explanation="Assembly routines (element_ops_amd64.s, element_mul_amd64.s, element_mul_adx_amd64.s) interpreted from their text into SMT and checked against the same specifications. Portable limb arithmetic of bandersnatch/fr executed from SSA: add/sub/neg/double/reduce/butterfly/mulByConstant/Bit/BitLen bit-precisely (BV), "
                       "mul/fromMont/SetUint64/Cmp in the integer encoding with abstract products and proved dropped-result lemmas.")
 
 
